@@ -32,4 +32,26 @@ def try_comprehension(it, n, env):
 
 
 def symbolic_range(it, args):
-    raise OutOfSubset("range() with symbolic bounds")
+    """range(lo, hi, step) with symbolic bounds and a concrete positive step: a sequence of symbolic length whose arbitrary
+    element i satisfies lo <= i < hi and (i - lo) % step == 0."""
+    from .values import VInt
+    from . import plain
+    import z3
+    lo, hi, step = (VInt(0), args[0], VInt(1)) if len(args) == 1 else (args[0], args[1], args[2] if len(args) > 2 else VInt(1))
+    if step.conc is None or step.conc <= 0:
+        raise OutOfSubset("range() with a symbolic or non-positive step")
+    n = it.fresh_int("len_range", 0)
+    it.assume(z3.If(hi.e > lo.e, z3.And(n.e >= 1, n.e <= hi.e - lo.e), n.e == 0))
+
+    def elem(it_, hint):
+        i = it_.fresh_int("range_i")
+        it_.assume(z3.And(i.e >= lo.e, i.e < hi.e))
+        if step.conc != 1:
+            q = it_.fresh_int("range_q", 0)
+            it_.assume(i.e == lo.e + q.e * step.conc)
+        return i
+    from . import types
+    r = plain.VPList(it, it.fresh_name("range"), elem, is_tuple=True, n=n)
+    from . import shapes
+    r.shape = shapes.AbsListT(types.Int(), is_tuple=True)
+    return r
